@@ -126,26 +126,39 @@ def run(rep: Report, prog: Program, tier: str) -> None:
         if isinstance(n, ast.Return) and not (isinstance(n.value, ast.Tuple) and unparse(n.value.elts[0]) == "pli_flag"):
             rep.fail(mk_finding(prog, PROP, "C10-PLI", add, n, "add() does not return pli_flag as its first result"))
 
-    # ---- C10-MISORDER
-    rep.rule("C10-MISORDER", "late-packet reset threshold is the constant 100", min_instances=1)
-    found = 0
-    for n in walk_no_nested(add.node):
-        if isinstance(n, ast.If) and any(isinstance(b, ast.Expr) and unparse(b.value) == "self.remove(self.capacity)" for b in n.body):
-            found += 1
-            t = n.test
-            ok = False
-            if isinstance(t, ast.Compare) and len(t.ops) == 1 and unparse(t.left) == "misorder":
-                k = prog.try_const(t.comparators[0], add.module, add.cls)
-                if isinstance(k, int):
-                    ok = (isinstance(t.ops[0], ast.GtE) and k == 100) or (isinstance(t.ops[0], ast.Gt) and k == 99)
-            if ok:
-                rep.ok("C10-MISORDER", f"add(): if {unparse(t)}", sample="threshold constant-folds to 100")
-            else:
-                rep.fail(mk_finding(prog, PROP, "C10-MISORDER", add, n,
-                                    f"the buffer is flushed for a late packet under `{unparse(t)}`; the property fixes the threshold at 100 positions "
-                                    f"independently of the capacity", construct="reset threshold " + unparse(t)))
-    if not found:
-        raise AnalysisError("reset branch (self.remove(self.capacity)) not found in add()")
+    # ---- C10-MISORDER (evaluation: the structure of the branch may change, its decision table may not)
+    rep.rule("C10-MISORDER", "a late packet is ignored when it is less than 100 positions late and resets the buffer otherwise, whatever the capacity", min_instances=20)
+    import itertools as _it0
+    from types import SimpleNamespace as _NS0
+
+    from engine.index import Unknown as _U0
+    from engine.peval import Evaluator as _Ev0, Raised as _R0
+
+    from .objhook import make_hook as _mk0
+    oh0 = _mk0(prog)
+    ev0_ = _Ev0(prog, prog.modules["jitterbuffer"], None, {}, oh0)
+    for capacity, video, d in _it0.product((16, 128), (True, False), (1, 2, 50, 99, 100, 101, 500, 30000)):
+        label = f"capacity {capacity}, {'video' if video else 'audio'}, packet {d} positions late"
+        try:
+            jb0 = oh0.instantiate(ci, [], dict(capacity=capacity, prefetch=0, is_video=video), ev0_)
+            for k in range(3):
+                oh0.run_method(add, jb0, [_NS0(sequence_number=(1000 + k) % 65536, timestamp=5000, _data=b"x")], {})
+            origin_before = jb0._origin
+            late = _NS0(sequence_number=(origin_before - d) % 65536, timestamp=1, _data=b"late")
+            r = oh0.run_method(add, jb0, [late], {})
+        except (_R0, _U0) as ex:
+            raise AnalysisError(f"C10-MISORDER cannot evaluate [{label}]: {ex}")
+        reset = jb0._origin == late.sequence_number and all(p is None or p is late for p in jb0._packets)
+        ignored = jb0._origin == origin_before and late not in jb0._packets and r[1] is None and not r[0]
+        want_reset = d >= 100
+        good = (reset and (bool(r[0]) == video)) if want_reset else ignored
+        if good:
+            rep.ok("C10-MISORDER", label, sample="buffer reset" + (", PLI" if video else "") if want_reset else "ignored")
+        else:
+            rep.fail(mk_finding(prog, PROP, "C10-MISORDER", add, add.node,
+                                f"[{label}] the buffer is {'reset' if reset else ('left alone' if ignored else 'in an unexpected state')} (PLI {bool(r[0])}); the property fixes the threshold "
+                                f"at 100 positions independently of the capacity: it must be {'reset' + (' with a key-frame request' if video else '') if want_reset else 'ignored'}",
+                                construct=f"late packet threshold ({'>= 100' if want_reset else '< 100'}, capacity {capacity})"))
 
     # ---- C10-SERIAL (C17 rule set on jitterbuffer.py)
     from . import C17
